@@ -36,6 +36,9 @@ var wrapIncludes bool
 // 2 = include replaced by the reference tag refinc.
 var includeMode int
 
+// captureDepth counts the enclosing capture blocks while Source() writes a tree.
+var captureDepth int
+
 func mk(l bool) string {
 	if l {
 		return "-"
@@ -60,7 +63,15 @@ func (n *TNode) write(sb *strings.Builder) {
 	case "tag":
 		if wrapIncludes && strings.HasPrefix(n.S, "include ") {
 			arg := strings.TrimPrefix(n.S, "include ")
-			switch includeMode {
+			mode := includeMode
+			if mode == 0 && captureDepth > 0 {
+				// inside a capture the include's output goes into a variable that may be
+				// filtered before it is printed: no segment to compare (the reference-tag
+				// oracle still covers it); snapc only records that the include was reached
+				sb.WriteString(dTL + " snapc " + arg + " " + dTR + dTL + " include " + arg + " " + dTR)
+				return
+			}
+			switch mode {
 			case 0:
 				sb.WriteString(dTL + " snap " + arg + " " + dTR + dTL + " include " + arg + " " + dTR + dTL + " mark " + dTR)
 			case 1: // bare include, trim markers kept
@@ -79,8 +90,14 @@ func (n *TNode) write(sb *strings.Builder) {
 			name = name[:i]
 		}
 		sb.WriteString(dTL + mk(n.TL) + " " + n.S + " " + mk(n.TR) + dTR)
+		if name == "capture" {
+			captureDepth++
+		}
 		for _, c := range n.C {
 			c.write(sb)
+		}
+		if name == "capture" {
+			captureDepth--
 		}
 		for _, cl := range n.Cl {
 			sb.WriteString(dTL + mk(cl.TL) + " " + cl.S + " " + mk(cl.TR) + dTR)
